@@ -306,7 +306,11 @@ func c16Run(c *c16Case) (rec vtr.Rec) {
 			}
 			outs[ex+"_rows"], outs[ex+"_err"], outs[ex+"_ms"] = rows, es, int(time.Since(t0)/time.Millisecond)
 			outs[ex+"_ctxexpired"] = ctx.Err() != nil
-			go sess.Shutdown()
+			if es == "" {
+				go sess.Shutdown()
+			}
+			// (a session whose run failed is left alone: machines that come up after Shutdown make the executor
+			// use its closed invocation cache, which panics the whole process -- "call after close")
 		}
 		rec["local_rows"], rec["local_err"] = outs["local_rows"], outs["local_err"]
 		rec["rows"], rec["err"], rec["ms"], rec["ctxexpired"] = outs[c.Exec+"_rows"], outs[c.Exec+"_err"], outs[c.Exec+"_ms"], outs[c.Exec+"_ctxexpired"]
